@@ -112,5 +112,7 @@ def check(case):
         classes.add("pairing_zeroed")
     if R.budget:
         classes.add("budget_cut")
+    if case["target"].get("huge"):
+        classes.add("target_weights_1e160")
     return {"nontrivial": swaps >= 1 and len(R.holes) >= 1, "classes": sorted(classes), "inconclusive": R.budget,
             "notes": {"swaps": swaps, "effective_holes": len(R.holes)}}
